@@ -95,6 +95,37 @@ CLAIMED = {
         "fflush/fclose performing it return EOF. C++ Config::writeFile throws FileIOException from the same return value (C17).",
    technique="Coq proof (case analysis over the device/stream model, arithmetic by lia) + fault-injection correspondence",
    ref="5 (C12)"),
+ "C18": dict(
+   text="Automaton equivalence decided inside Coq (Properties_C18.v, closed under the global context): for each of the "
+        "five start conditions, at and away from the beginning of a line, a finite set of (DFA state, vector of Brzozowski "
+        "derivatives of the documented patterns) pairs is checked closed by vm_compute against the yy_* tables that the "
+        "translator extracts from /repo/lib/scanner.c on every run; a soundness theorem proved once, generically in the "
+        "tables (Bisim.v: induction on the input), turns the ten certificates into: for every byte string over the full "
+        "256-byte alphabet, flex's matching loop selects exactly longest_match of the documented rules; longest_match is "
+        "characterised declaratively (longest prefix any rule matches, earliest rule on ties) from deriv/nullable "
+        "correctness; the action table equals the documented one (booleans before names, floats before integers, every "
+        "escape, garbage for other bytes), include_open only at BOL. Token streams of libconfig_yylex are compared with "
+        "the model and with a tokenizer written from the documented patterns on every run.",
+   note="Trusted: tools/gen_tables.py (regex extraction of tables, jam state, start-condition numbering, action bodies "
+        "classified by normalised text), the hand transcription of flex's 30-line matching loop (FlexEngine.v, tied by "
+        "the token-level correspondence), the documented patterns as transcribed in ScannerSpec.v. The manual's float "
+        "production omits the ? after the exponent sign of the second alternative; scanner.l and the prose agree and are used.",
+   technique="Coq proof: bisimulation certificate (vm_compute) + generic soundness lemma; translator-regenerated tables",
+   ref="5 (C18), Appendix A"),
+ "C03": dict(
+   text="PARTIAL. Proved (Properties_C03.v, closed under the global context, over the translator-regenerated tables): on "
+        "every non-empty input in every start condition the matcher selects one of the 47 documented rules and a lexeme of "
+        "length >= 1 (the scanner loop terminates and never gets stuck), and never flex's default ECHO rule (no stray "
+        "output). Not provable in a Gallina model and therefore only observed, on every run, by the ASan+UBSan+LSan "
+        "harness with per-input deadline: memory safety of the C code and of the flex/bison skeletons, leaks, C stack "
+        "depth, process exit; outcome, stdout capture, descriptor count and a follow-up battery (traverse, look up, write, "
+        "modify, re-read, clear) are compared with the model on byte-mutated configurations, random bytes with NULs, "
+        "nesting to 3000 levels, unterminated constructs, includes of missing files / directories / the file itself.",
+   note="Beyond 1900 nesting levels the LALR stack limit (YYMAXDEPTH 10000, 5 entries per open group) may be hit; the "
+        "model then answers 'unspecified' and only safety is checked. Include-machine termination is bounded by "
+        "MAX_INCLUDE_DEPTH in the model (structural recursion on the depth budget).",
+   technique="Coq proof of the scanner-progress and no-default-rule logic (certificates + lemma) + sanitizer correspondence for the rest (partial)",
+   ref="5 (C03)"),
 }
 
 REASON_PENDING = "not decided in the committed state of this round: the Coq theorem for this property is not yet in the tree, and a property is never claimed on testing alone (DESIGN.md section 11)"
